@@ -240,4 +240,4 @@ def run(ctx):
 
 REQUIRED_DEEP = ["uniform_versions", "versions_consecutive", "versions_consecutive_monotone", "subject_unique", "all_or_nothing",
                  "failed_commit_restores", "retry_enabled", "cfgNow_fixed", "stopped_operation_resolved",
-                 "abandoned_keys_unpublished_partial"]
+                 "abandoned_keys_unpublished_partial", "abandoned_keys_unpublished"]
